@@ -35,10 +35,10 @@ def main():
     ids = sys.argv[1:] or [f'C{i:02d}' for i in range(1, 19)]
     for pid in ids:
         for k in (1, 2):
-            src = f'/tmp/seed-{pid}.out/mutant{k}'
+            src = f"{os.environ.get('SEED_PREFIX','/tmp/seed-')}{pid}.out/mutant{k}"
             if not os.path.exists(os.path.join(src, 'patch.diff')):
                 continue
-            name = f'{pid}-m{k}'
+            name = f"{pid}-{os.environ.get('SEED_TAG','m')}{k}"
             wt = tempfile.mkdtemp(prefix='jdmc-imp.', dir='/tmp'); os.rmdir(wt)
             subprocess.run(['git', '-C', '/repo', 'worktree', 'add', '-q', '--detach', wt, 'HEAD'], check=True)
             try:
